@@ -181,7 +181,10 @@ def build_load(case):
         if load == 0:
             return fillers(2), ext, config, None
         n = 1 if load == 1 else 3
-        return fillers(n, header=False) + fillers(1), ext, config, None
+        # a header that names only its purpose: several findings of one rule at one position that differ in the message only
+        partial = ['"""', "Purpose: partial header", '"""', ""] if lang == PY else ["/**", " * Purpose: partial header", " */", ""]
+        body = fillers(1, header=False)[0]
+        return fillers(n, header=False) + ["\n".join(partial) + body] + fillers(1), ext, config, None
 
     fams = SRC_CMDS[cmd][lang]
     if load == 0:
